@@ -20,7 +20,10 @@ if os.path.realpath(_ALT_REPO) != "/repo":
     _tag = hashlib.sha1(os.path.realpath(_ALT_REPO).encode()).hexdigest()[:10]
     BUILD = os.path.join(VERIF, "build", "alt-" + _tag)
     os.makedirs(BUILD, exist_ok=True)
-    subprocess.run(["rsync", "-a", "--delete", "--exclude", "Gen/", "--exclude", ".Makefile.d", COQ + "/", os.path.join(BUILD, "coq") + "/"], check=True)
+    # Gen/ is copied too: like /repo's own tree after setup, the private tree starts from the Gen files of the unchanged
+    # source, so that when a translator refuses the changed source the model still builds (from those files) and the
+    # failing-input search can run
+    subprocess.run(["rsync", "-a", "--delete", "--exclude", ".Makefile.d", COQ + "/", os.path.join(BUILD, "coq") + "/"], check=True)
     COQ = os.path.join(BUILD, "coq")
 LOGICAL = "QV"
 SUBDIRS = ["Common", "Gen", "Model", "Proofs", "Props"]
@@ -258,13 +261,27 @@ def _run_shard(args):
     return idx, rc, out
 
 
+def _case_dir(tag):
+    """Per-process directory for generated case files (two concurrent runs of one property must not clobber each
+    other's shards); directories left behind by processes that no longer exist are removed."""
+    import shutil
+    root = os.path.join(BUILD, "cases")
+    os.makedirs(root, exist_ok=True)
+    for name in os.listdir(root):
+        base, _, pid = name.rpartition(".")
+        if base == tag and pid.isdigit() and int(pid) != os.getpid() and not os.path.exists(f"/proc/{pid}"):
+            shutil.rmtree(os.path.join(root, name), ignore_errors=True)
+    d = os.path.join(root, f"{tag}.{os.getpid()}")
+    os.makedirs(d, exist_ok=True)
+    return d
+
+
 def eval_bad_indices(tag, requires, prelude, check_fn, cases, shard=400, timeout=3000, ty=None):
     """`cases` are Gallina terms (strings) of one type; `check_fn` is a Gallina function case->bool.
     Returns (bad_global_indices, errors) where errors are shards that failed to compile.
     Each shard prints `= [i; j; ...]` with the local indices where check_fn is false."""
     os.makedirs(BUILD, exist_ok=True)
-    d = os.path.join(BUILD, "cases", tag)
-    os.makedirs(d, exist_ok=True)
+    d = _case_dir(tag)
     for fn in os.listdir(d):
         try:
             os.remove(os.path.join(d, fn))
@@ -299,8 +316,7 @@ def eval_bad_indices(tag, requires, prelude, check_fn, cases, shard=400, timeout
 
 def eval_terms(tag, requires, prelude, terms, timeout=600):
     """Evaluate a few terms with vm_compute and return the printed results (raw text each)."""
-    os.makedirs(os.path.join(BUILD, "cases", tag), exist_ok=True)
-    path = os.path.join(BUILD, "cases", tag, "E" + hashlib.sha1("\n".join(terms).encode()).hexdigest()[:10] + ".v")
+    path = os.path.join(_case_dir(tag), "E" + hashlib.sha1("\n".join(terms).encode()).hexdigest()[:10] + ".v")
     body = HEADER + "\n".join(f"Require Import {r}." for r in requires) + "\n" + prelude + "\n"
     for t in terms:
         body += f'Eval vm_compute in ({t}).\n'
